@@ -140,6 +140,21 @@ pub fn get_input_list(
     }
 }
 
+/// Reads sample names from a file, one per line (only the first field of each
+/// line is used, so a `ska build` file list can be given too).
+pub fn read_name_list(file_list: &str) -> Vec<InputFastx> {
+    let f = File::open(file_list).expect("Unable to open file_list");
+    let f = BufReader::new(f);
+    let mut names: Vec<InputFastx> = Vec::new();
+    for line in f.lines() {
+        let line = line.expect("Unable to read line in file_list");
+        if let Some(name) = line.split_whitespace().next() {
+            names.push((name.to_string(), String::new(), None));
+        }
+    }
+    names
+}
+
 /// Checks if any input files are fastq
 pub fn any_fastq(files: &[InputFastx]) -> bool {
     files.iter().any(|file| file.2.is_some())
